@@ -121,10 +121,15 @@ def validate_templates(rng, n):
             feats, rels = random_db(rng)
             db = native_db(feats, rels)
         name, a, kw = random_call(rng, feats)
+        for attr in ("_last_query", "_last_args"):
+            if attr in vars(db):
+                delattr(db, attr)
         try:
             real = [x.id for x in getattr(db, name)(*a, **kw)]
         except Exception as e:
             continue            # e.g. order_by='length' as a string (separate finding), not a model question
+        if "_last_query" not in vars(db) or "_last_args" not in vars(db):
+            continue            # the call sent no statement of its own (nothing for the SQL model to be compared with)
         q, qa = db._last_query, list(db._last_args)
         templates.add(" ".join(q.split())[:160].replace("0", "#").replace("1", "#"))
         cases += 1
